@@ -689,13 +689,6 @@ class StateEngine(object):
                         {"StateMachineArn": state_machine_arn}
                     )
 
-                """
-                Tidy up self.branch_metadata for current execution_arn.
-                If ExecutionFailed we need to check for outstanding terminated
-                branch messages subsequently arriving.
-                """
-                if execution_arn in self.branch_metadata:
-                    self.check_pending_results(execution_arn)
             else:
                 opentracing.tracer.active_span.set_tag("status", "SUCCEEDED")
                 execution_detail["status"] = "SUCCEEDED"
@@ -733,6 +726,15 @@ class StateEngine(object):
         )
 
         self.broadcast_notification(execution_arn, execution_detail, context)
+
+        """
+        Tidy up self.branch_metadata for current execution_arn.
+        If ExecutionFailed we need to check for outstanding terminated
+        branch messages subsequently arriving. This acknowledges the held
+        branch events, so it is done after the terminal notification is sent.
+        """
+        if execution_failed and execution_arn in self.branch_metadata:
+            self.check_pending_results(execution_arn)
 
     def update_execution_history(
             self, state_machine, execution_arn, update_type, details
